@@ -239,3 +239,163 @@ pub fn session(case: &J, srcs: &[Src]) -> J {
 fn run_once_threaded(file: &tree_sitter_graph::ast::File, src: &Src, lazy: bool, globals: &tree_sitter_graph::Variables) -> String {
     run_once(file, src, lazy, globals)
 }
+
+/// property C17: replays one call sequence on real containers; returns the first disagreement (or null)
+pub fn containers(seq: &J) -> J {
+    use tree_sitter_graph::Variables;
+    let mut graph: Graph = Graph::new();
+    let mut refs = Vec::new();
+    let mut outer = Variables::new();
+    let hist = seq["hist"].as_array().cloned().unwrap_or_default();
+    let split = hist.iter().position(|h| h["op"] == "nest").unwrap_or(hist.len());
+    let dummy_src: Option<&Src> = None;
+    let _ = dummy_src;
+    let val = |v: &J, graph: &Graph| value_from_json_g(v, graph);
+    let show = |v: &Value| -> J { value_plain(v) };
+    let mut step = |k: usize, h: &J, graph: &mut Graph, refs: &mut Vec<tree_sitter_graph::graph::GraphNodeRef>, vars: &mut Variables| -> Option<J> {
+        let op = h["op"].as_str().unwrap_or("");
+        let a = h["args"].as_array().cloned().unwrap_or_default();
+        let int = |x: &J| x.as_u64().unwrap_or(0) as usize;
+        let got: J = match op {
+            "add_node" => {
+                let r = graph.add_graph_node();
+                refs.push(r);
+                json!({"t": "int", "hi": r.index() / 65536, "lo": r.index() % 65536})
+            }
+            "add_edge" => {
+                let (i, j) = (refs[int(&a[0])], refs[int(&a[1])]);
+                match graph[i].add_edge(j) {
+                    Ok(_) => json!({"t": "str", "s": "new"}),
+                    Err(_) => json!({"t": "str", "s": "existing"}),
+                }
+            }
+            "get_edge" => json!({"t": "bool", "b": graph[refs[int(&a[0])]].get_edge(refs[int(&a[1])]).is_some()}),
+            "get_edge_mut" => json!({"t": "bool", "b": graph[refs[int(&a[0])]].get_edge_mut(refs[int(&a[1])]).is_some()}),
+            "attr_node" => {
+                let v = val(&a[2], graph)?;
+                match graph[refs[int(&a[0])]].attributes.add(Identifier::from(a[1].as_str().unwrap()), v) {
+                    Ok(()) => json!({"t": "str", "s": "ok"}),
+                    Err(old) => json!({"t": "conflict", "old": show(&old)}),
+                }
+            }
+            "attr_edge" => {
+                let v = val(&a[3], graph)?;
+                let j = refs[int(&a[1])];
+                match graph[refs[int(&a[0])]].get_edge_mut(j) {
+                    None => json!({"t": "str", "s": "<no edge>"}),
+                    Some(e) => match e.attributes.add(Identifier::from(a[2].as_str().unwrap()), v) {
+                        Ok(()) => json!({"t": "str", "s": "ok"}),
+                        Err(old) => json!({"t": "conflict", "old": show(&old)}),
+                    },
+                }
+            }
+            "attr_get" => match graph[refs[int(&a[0])]].attributes.get(a[1].as_str().unwrap()) {
+                Some(v) => show(v),
+                None => json!({"t": "str", "s": "<none>"}),
+            },
+            "iter_edges" => {
+                let l: Vec<J> = graph[refs[int(&a[0])]].iter_edges().map(|(s, _)| json!({"t": "int", "hi": s.index() / 65536, "lo": s.index() % 65536})).collect();
+                let n = graph[refs[int(&a[0])]].edge_count();
+                if n != l.len() {
+                    return Some(json!({"step": k, "op": op, "detail": "edge_count differs from the number of iterated edges"}));
+                }
+                json!({"t": "list", "l": l})
+            }
+            "node_count" => {
+                let n = graph.node_count();
+                if graph.iter_nodes().map(|r| r.index()).collect::<Vec<_>>() != (0..n).collect::<Vec<_>>() {
+                    return Some(json!({"step": k, "op": op, "detail": "iter_nodes is not 0..node_count"}));
+                }
+                json!({"t": "int", "hi": n / 65536, "lo": n % 65536})
+            }
+            "var_add" => match vars.add(Identifier::from(a[0].as_str().unwrap()), val(&a[1], graph)?) {
+                Ok(()) => json!({"t": "str", "s": "ok"}),
+                Err(_) => json!({"t": "str", "s": "exists"}),
+            },
+            "var_get" => match vars.get(&Identifier::from(a[0].as_str().unwrap())) {
+                Some(v) => show(v),
+                None => json!({"t": "str", "s": "<none>"}),
+            },
+            "var_remove" => {
+                vars.remove(&Identifier::from(a[0].as_str().unwrap()));
+                json!({"t": "null"})
+            }
+            "var_clear" => {
+                vars.clear();
+                json!({"t": "null"})
+            }
+            _ => return Some(json!({"step": k, "op": op, "detail": "unknown operation"})),
+        };
+        if canon(&got) != canon(&h["ret"]) {
+            return Some(json!({"step": k, "op": op, "args": a, "expected": h["ret"], "got": got}));
+        }
+        None
+    };
+    for (k, h) in hist.iter().enumerate().take(split) {
+        if let Some(m) = step(k, h, &mut graph, &mut refs, &mut outer) {
+            return m;
+        }
+    }
+    let outer_before: Vec<(String, J)> = sorted_vars(&outer);
+    {
+        let mut inner = Variables::nested(&outer);
+        for (k, h) in hist.iter().enumerate().skip(split + 1) {
+            if let Some(m) = step(k, h, &mut graph, &mut refs, &mut inner) {
+                return m;
+            }
+        }
+    }
+    if sorted_vars(&outer) != outer_before {
+        return json!({"step": hist.len(), "op": "nested", "detail": "the outer variable set changed through the nested one"});
+    }
+    // final state against the model
+    let want_outer: Vec<(String, J)> = match seq["outer"].as_object() {
+        Some(m) => m.iter().map(|(k, v)| (k.clone(), canon(v))).collect(),
+        None => Vec::new(),
+    };
+    let got_outer: Vec<(String, J)> = outer_before.into_iter().map(|(k, v)| (k, canon(&v))).collect();
+    if got_outer != want_outer {
+        return json!({"step": hist.len(), "op": "final", "detail": "outer variables differ from the model", "got": got_outer, "expected": want_outer});
+    }
+    J::Null
+}
+
+fn sorted_vars(v: &tree_sitter_graph::Variables) -> Vec<(String, J)> {
+    let mut out: Vec<(String, J)> = v.iter().map(|(k, v)| (k.as_str().to_string(), value_plain(v))).collect();
+    out.sort_by(|a, b| a.0.cmp(&b.0));
+    out
+}
+
+/// plain (graph-free) rendering of a value
+pub fn value_plain(v: &Value) -> J {
+    match v {
+        Value::Null => json!({"t": "null"}),
+        Value::Boolean(b) => json!({"t": "bool", "b": b}),
+        Value::Integer(i) => json!({"t": "int", "hi": i / 65536, "lo": i % 65536}),
+        Value::String(s) => json!({"t": "str", "s": s}),
+        Value::List(l) => json!({"t": "list", "l": l.iter().map(value_plain).collect::<Vec<_>>()}),
+        Value::Set(l) => json!({"t": "set", "e": l.iter().map(value_plain).collect::<Vec<_>>()}),
+        Value::GraphNode(r) => json!({"t": "gn", "g": r.index()}),
+        Value::SyntaxNode(_) => json!({"t": "syn", "n": format!("{}", v)}),
+    }
+}
+
+/// order-insensitive normal form of an interchange value (sets sorted)
+fn canon(v: &J) -> J {
+    match v {
+        J::Object(m) => {
+            let mut o = serde_json::Map::new();
+            for (k, x) in m {
+                o.insert(k.clone(), canon(x));
+            }
+            if m.get("t").and_then(|t| t.as_str()) == Some("set") {
+                if let Some(J::Array(a)) = o.get_mut("e") {
+                    a.sort_by_key(|x| x.to_string());
+                }
+            }
+            J::Object(o)
+        }
+        J::Array(a) => J::Array(a.iter().map(canon).collect()),
+        x => x.clone(),
+    }
+}
